@@ -1,5 +1,6 @@
 //! `fv` — runtime-monitoring harness for ZcashFoundation/frost (see /verif/DESIGN.md).
 #![allow(non_snake_case)]
+#![allow(unused_imports, unused_assignments)]
 #![allow(clippy::type_complexity)]
 
 pub mod alg;
